@@ -23,6 +23,12 @@ BQ_RULES = [
     (r'std::min\(', 'MIN_(', 1), (r'Base::capacity', 'this->b.capacity', 1), (r'(?<![\w>.:])idx\(', 'Base_idx(&this->b, ', 1),
     (r'(?<![\w>.])memcpy\(', 'bq_memcpy(this, ', 1), (r'(?<![\w>.])slots\[', 'this->slots[', 1), (r'sizeof\(T\)', 'sizeof(uint64_t)', 1),
 ]
+SPR = [
+    (r'\b(tail|head)\.load\([^)]*\)', r'sp_load(this, &this->b.\1)', 0), (r'\b(tail|head)\.store\(([^,]+), std::memory_order_release\)', r'sp_store(this, &this->b.\1, \2)', 1),
+    (r'(?<![\w>.&])(head|tail)(?![\w.(])', r'sp_load(this, &this->b.\1)', 0),      # implicit atomic load (operator T)
+    (r'Base::check_(full|empty)\(', r'Base_check_\1(&this->b, ', 0), (r'std::min\(', 'MIN_(', 0), (r'Base::capacity', 'this->b.capacity', 0),
+    (r'(?<![\w>.:])idx\(', 'Base_idx(&this->b, ', 1), (r'&slots\[', '&this->slots[', 0), (r'(?<![\w>.])(produce|consume)\(', 'CB_(', 0),
+]
 PURE = ['Base_idx', 'Base_turn', 'Q_last_turn_read', 'Q_this_turn_write', 'Q_this_turn_read', 'Base_check_full', 'Base_check_empty', 'Base_check_mask_equal']
 TARGETS = [
     Target('base_ctor', Q, r'explicit LockfreeRingQueueBase\(size_t c\)\s*(?=:)', init_list=True, rules=[
@@ -58,13 +64,24 @@ TARGETS = [
                                    effects={'bq_load': ['this'], 'bq_cas': ['this', 'rt', 'rh', 'W_CLAIM', 'R_CLAIM', 'CL_POS', 'CL_N', 'N_CLAIM', 'N_PUBLISH'], 'bq_memcpy': ['this', 'x', 'N_CPY', 'CPY_DST', 'CPY_SRC', 'CPY_LEN']}, pure=['Base_idx', 'MIN_']),
                               1: dict(name='OW', frame=['rh', 'this', 'W_CLAIM', 'R_CLAIM', 'CL_POS', 'CL_N', 'N_CLAIM', 'N_PUBLISH'],
                                    effects={'bq_cas': ['this', 'rh', 'W_CLAIM', 'R_CLAIM', 'CL_POS', 'CL_N', 'N_CLAIM', 'N_PUBLISH']}, pure=[])}),
+    Target('spsc_push', Q, r'bool push\(const T& x\) (?=\{\s*auto t = tail\.load\(std::memory_order_acquire\);\s*if \(unlikely\(Base::check_full)', rules=SPR + [
+        (r'slots\[([^\]]*)\] = x;', r'SLOT_WRITE(this, \1, *x);', 1)]),
+    Target('spsc_pop', Q, r'bool pop\(T& x\) (?=\{\s*auto h = head\.load\(std::memory_order_acquire\);\s*if \(unlikely\(Base::check_empty)', rules=SPR + [
+        (r'(?<![\w>.])x = slots\[([^\]]*)\];', r'*x = SLOT_READ(this, \1);', 1)]),
+    Target('spsc_produce', Q, r'size_t produce_push_batch\(size_t n, Producer&& produce\)', rules=SPR),
+    Target('spsc_produce_fully', Q, r'size_t produce_push_batch_fully\(size_t n, Producer&& produce\)', rules=SPR),
+    Target('spsc_consume', Q, r'size_t consume_pop_batch\(size_t n, Consumer&& consume\)', rules=SPR),
 ]
-UNITS = {'ring.c': 'ring.c.in', 'batch.c': 'batch.c.in'}
+UNITS = {'ring.c': 'ring.c.in', 'batch.c': 'batch.c.in', 'spsc.c': 'spsc.c.in'}
 PROOFS = [
     Proof('arith', 'ring.c', 'lemma_ring_arith', kind='L', min_obligations=6),
     Proof('mpmc/push', 'ring.c', 'h_mpmc_push', kind='L', min_obligations=4, backend='cadical'),
     Proof('batch/push', 'batch.c', 'h_push_batch', kind='L', min_obligations=6, backend='cadical'),
     Proof('batch/pop', 'batch.c', 'h_pop_batch', kind='L', min_obligations=6, backend='cadical'),
+    Proof('spsc/push', 'spsc.c', 'h_spsc_push', kind='L', min_obligations=4),
+    Proof('spsc/pop', 'spsc.c', 'h_spsc_pop', kind='L', min_obligations=4),
+    Proof('spsc/push_batch', 'spsc.c', 'h_spsc_produce', kind='L', min_obligations=4, backend='cadical'),
+    Proof('spsc/pop_batch', 'spsc.c', 'h_spsc_consume', kind='L', min_obligations=4, backend='cadical'),
     Proof('mpmc/pop', 'ring.c', 'h_mpmc_pop', kind='L', min_obligations=4, backend='cadical'),
 ]
 NATIVES = []
@@ -72,5 +89,5 @@ AUX_VIOLATION = True    # no native oracle: a failing loop-rule obligation is re
 TRUSTED = ['cbmc 6.11.0', 'lowering rules of specs/C07/spec.py']
 NOT_DECIDED = ['FIFO per producer across stalls; "nothing lost or duplicated" as a whole-history property (the per-call step contracts + the mark-protocol lemmas are what is proved)',
                'the RingChannel / FlexRingChannel notification protocol (Dekker fence, idler/pending counters, semaphore): memory-model and schedule facts',
-               'SPSC and batch queues (not yet under contract)', 'memory ordering (sequentially consistent model)']
+               'send/recv wrappers (pause loops) and the SPSC push_batch/pop_batch memcpy lambdas (the piece layout they receive is proved)', 'memory ordering (sequentially consistent model)']
 ASSUMPTIONS = ['rely: tail/head only grow; another thread writes a slot only between its own claim and publication']
